@@ -21,7 +21,8 @@ EXPLANATION = (
     " (R12) every place of the declaration rules that makes the type of a new variable is dominated by a call that reaches the lookup collecting the entries of the name in the current scope and the SHARED ones of the module level in every style: a declaration in a SUB cannot take a name away from a SHARED variable."
     " (R13) wherever a context holding the DEFtype letter table is built the table is a fresh one: every pass over the program starts from the default table."
     " (R14) among the checks the declaration rules run against the table of functions one is strict: a DIM cannot take the name of a FUNCTION."
-    " (R15) every comparison of two texts in the front end and the VM either folds letter case or is tabled as comparing run-time data (shared with C09.R2): the FIELD / LSET lookup of a variable by the text of its name included.")
+    " (R15) every comparison of two texts in the front end and the VM either folds letter case or is tabled as comparing run-time data (shared with C09.R2): the FIELD / LSET lookup of a variable by the text of its name included."
+    " (R16) wherever the checker files a variable (a VariableInfo is built), the SHARED flag it stores is the flag of the declaration being filed - a parameter, a constant, or the flag of an entry being copied - never the outcome of a lookup of other names.")
 NOT_DECIDED = ["the resolution outcome for arbitrary combinations of declarations (run of the converter)"]
 
 NAMES = "Names"
@@ -1077,6 +1078,42 @@ def r14_a_variable_cannot_take_the_name_of_a_function(ctx, rule="C13.R14"):
     ctx.require(rule, 1)
 
 
+def r16_the_stored_shared_flag_is_the_declarations_own(ctx, rule="C13.R16"):
+    """Whether a SUB / FUNCTION sees a module-level variable is decided by the SHARED flag filed with that variable.
+    Wherever a VariableInfo is built, the flag it stores is the flag of the declaration being filed: a parameter of the
+    function (followed no further), a constant, or the `shared` field of an entry that is being copied - never the
+    outcome of a computation (a lookup of other names, an `||` over them): a name does not become SHARED because a
+    namesake is."""
+    prog = ctx.prog
+    n = 0
+    for f in sorted(prog.fns.values(), key=lambda x: x.id):
+        if f.crate != "rusty_linter" or f.kind == "const":
+            continue
+        pv = None
+        for blk in f.body.blocks:
+            if blk.get("c"):
+                continue
+            for s in blk["s"]:
+                if s["k"] != "assign" or s["r"]["k"] != "agg" or not (s["r"].get("adt") or "").endswith("::VariableInfo"):
+                    continue
+                a = prog.adt(s["r"]["adt"])
+                idx = [i for i, x in enumerate(a["variants"][0]["fields"]) if x["name"] == "shared"]
+                if not idx:
+                    raise CheckError("%s: VariableInfo has no field `shared`" % rule)
+                pv = pv or mir.Prov(f.body)
+                op = s["r"]["ops"][idx[0]]
+                o = mir.show_origin(pv.of_operand(op))
+                ok = bool(re.fullmatch(r"arg\d+|true|false|(clone\()?\(?\*?[\w.*()& ]*\.shared\)?\)?", o))
+                n += 1
+                short = f.path.split("::", 1)[1]
+                ctx.decide(ok, rule, "%s:%s" % (rule, short), "%s:%s" % (f.file, s.get("ln")), "shared = %s" % o,
+                           "%s stores a SHARED flag that is computed (%s) instead of the flag of the declaration it files: a "
+                           "variable becomes visible inside SUBs and FUNCTIONs because of something other than its own DIM SHARED "
+                           "(e.g. a namesake of another type that is SHARED)" % (short, o[:90] or "several definitions"))
+    ctx.analysed_units(rule, constructions=n)
+    ctx.require(rule, 5)
+
+
 def run(ctx):
     common.install(ctx)
     from . import c09
@@ -1098,3 +1135,4 @@ def run(ctx):
     # FIELD / LSET identify a variable by the text of its name at run time: every comparison of program text
     # anywhere in the front end and the VM folds letter case (the enumeration of C09.R2)
     c09.r2_raw_comparisons(ctx, "C13.R15")
+    r16_the_stored_shared_flag_is_the_declarations_own(ctx)
